@@ -60,13 +60,13 @@ _lock = threading.Lock()
 
 
 def tlc_programs(ctx, slice_, *, cover=None, timeout=600, simulate=None, depth=None, seed=None, label=None,
-                 workers=None, module='SynthGraphGen'):
+                 workers=None, module='SynthGraphGen', tag=''):
     """All programs of a vocabulary slice (or group of slices) of SynthGraphGen.tla or, with simulate=, random
     walks of the same generator (RSpec).  The model run also checks the design invariants NaiveOK and
     DropDetected on every program.  Safe to call from several threads (own metadir per call; the
     bookkeeping of Ctx.model_check is repeated here because that method uses one shared work dir)."""
     label = label or 'slice ' + slice_
-    wd = os.path.join(ctx.work, 'gen_%s_%s_%s' % (module, slice_, 'sim' if simulate else 'bfs'))
+    wd = os.path.join(ctx.work, 'gen_%s_%s_%s%s' % (module, slice_, 'sim' if simulate else 'bfs', tag))
     kw = dict(env={'VERIF_SLICE': slice_, 'JAVA_TOOL_OPTIONS': JVM_OPTS}, timeout=timeout)
     cover = tuple(cover or ())
     if simulate:
